@@ -45,4 +45,11 @@ def units(tier):
         add("N+E", [("N", "task"), ("E", "soon")], J=2)
         add("R+B child0-native", [("B", "task"), ("R", "task")], env=("child0",), J=2)
         add("R+B group-cancel T=2", [("R", "task"), ("B", "task")], env=("group",), T=2, J=2)
+    if not quick:
+        # every quick shape again with longer sleeps / more cycle offsets, and on the eager task factory
+        base = [u for u in us if u["params"].get("T", 1) == 1 and not u["params"].get("eager")]
+        for u in base:
+            for (T, J, eager) in ((2, 2, False), (1, 2, True)):
+                p = dict(u["params"], T=T, J=J, eager=eager)
+                us.append({"name": u["name"] + " T=%d J=%d%s" % (T, J, " eager" if eager else ""), "fn": u["fn"], "params": p, "budget_s": 1500})
     return us
